@@ -1,23 +1,31 @@
 #!/bin/bash
-# MANIFEST.setup_cmd: build everything the checks share, offline, from files on disk only.
-set -e
+# MANIFEST.setup_cmd: warm the caches the checks share (hooked build of /repo, regenerated coq/Gen, the .vo files of the
+# claimed properties), offline, from files on disk only.  Every check redoes these steps itself (incrementally) and is the
+# one that reports a build / translation / proof failure as a VIOLATION, so this script only warns about them.
 cd "$(dirname "$0")"
 python3 - <<'PY'
-import sys
+import sys, json, importlib
 sys.path.insert(0, "lib")
 import common
 ok, msg = common.ensure_build()
 print("hooked build of /repo:", ok, msg[-2000:])
-if not ok:
-    sys.exit(1)
-errs = common.run_src2v()
-print("src2v:", errs or "ok")
-import glob, os
-d = common.coq_dir()
-targets = sorted(os.path.relpath(p, d)[:-2] + ".vo" for p in glob.glob(os.path.join(d, "P*/*.v")) + glob.glob(os.path.join(d, "Model/*.v")))
-ok, out = common.coq_make(targets, timeout=3000)
-print("coq build:", ok)
-if not ok:
-    print(out[-4000:])
-    sys.exit(1)
+if ok:
+    errs = common.run_src2v()
+    print("src2v:", errs or "ok")
+    man = json.load(open("MANIFEST.json"))
+    targets = []
+    for c in man["checks"]:
+        try:
+            mod = importlib.import_module("props." + c["property_id"].lower())
+        except Exception as e:
+            print("warning: no props module for", c["property_id"], e)
+            continue
+        for t in list(getattr(mod, "COQ_DEPS", [])) + [mod.PROPERTIES_FILE[:-2] + ".vo"]:
+            if t not in targets:
+                targets.append(t)
+    ok, out = common.coq_make(targets, timeout=3000)
+    print("coq build of %d targets: %s" % (len(targets), ok))
+    if not ok:
+        print("warning: coq build incomplete (the checks will report it):\n" + out[-3000:])
 PY
+exit 0
